@@ -231,35 +231,33 @@ class Oracle:
     # C04
     # ------------------------------------------------------------------
     def check_lost_timing(self, mj, targs):
+        """(that the loss is justified at all - a gone worker owns an unfinished
+        part - has been checked by the caller).  Timing and status text may refer
+        to ANY worker of this job that died: when two workers of one map die, the
+        pool keeps the first detection, and naming either is naming "the exit
+        status" of a worker that died executing the job."""
         sim = self.sim
         now = CLOCK.now
         L = mj.lost_timeout
-        ok_victims = []
-        early = []
+        dead = []
         for p in mj.parts.values():
-            if p.owner is None or p.ready_delivered:
+            if p.owner is None:
                 continue
             proc = sim.by_pid[p.owner]
-            if proc.alive:
-                continue
-            td = sim.reaps.get(p.owner)
-            if td is not None and now > td + L:
-                ok_victims.append((proc, p))
-            else:
-                early.append((proc, p, td))
-        if not ok_victims:
+            if not proc.alive and proc not in [d[0] for d in dead]:
+                dead.append((proc, sim.reaps.get(p.owner)))
+        # same arithmetic as the statement: failed strictly later than L after
+        # a detection (1e-9 absorbs now-td vs td+L rounding)
+        if not any(td is not None and now - td > L - 1e-9 for _, td in dead):
             raise Violation('C04/i-early/%s' % mj.kind,
-                            'job %d failed with WorkerLostError at t=%.2f, victims '
-                            '(pid, reaped-at): %r, lost timeout %.2f' % (
-                                mj.idx, now, [(e[0].pid, e[2]) for e in early], L))
-        # status named in the text
+                            'job %d failed with WorkerLostError at t=%.2f, dead '
+                            'workers of this job (pid, reaped-at): %r, lost timeout '
+                            '%.2f' % (mj.idx, now, [(d[0].pid, d[1]) for d in dead],
+                                      L))
         texts = []
-        for proc, _ in ok_victims:
+        for proc, _ in dead:
             st = proc.exitcode
-            if (st or 0) < 0:
-                texts.append('signal %d' % -st)
-            else:
-                texts.append('exitcode %d' % st)
+            texts.append('signal %d' % -st if (st or 0) < 0 else 'exitcode %d' % st)
         if not any(t in targs for t in texts):
             raise Violation('C04/status-text/%s' % mj.kind,
                             'job %d: WorkerLostError%s does not name any of %r'
